@@ -355,6 +355,7 @@ func ReleaseAST(ast *AST) {
 
 	// Reset comments but keep capacity
 	if cap(ast.Comments) > 0 {
+		clear(ast.Comments) // drop the previous tree's comment texts from the kept backing array
 		ast.Comments = ast.Comments[:0]
 	}
 
@@ -419,6 +420,11 @@ func PutInsertStatement(stmt *InsertStatement) {
 	stmt.Columns = stmt.Columns[:0]
 	stmt.Values = stmt.Values[:0]
 	stmt.TableName = ""
+	stmt.With = nil
+	stmt.Query = nil
+	stmt.Returning = nil
+	stmt.OnConflict = nil
+	stmt.OnDuplicateKey = nil
 
 	// Return to pool
 	insertStmtPool.Put(stmt)
@@ -448,6 +454,10 @@ func PutUpdateStatement(stmt *UpdateStatement) {
 	stmt.Assignments = stmt.Assignments[:0]
 	stmt.Where = nil
 	stmt.TableName = ""
+	stmt.With = nil
+	stmt.Alias = ""
+	stmt.From = nil
+	stmt.Returning = nil
 
 	// Return to pool
 	updateStmtPool.Put(stmt)
@@ -470,6 +480,10 @@ func PutDeleteStatement(stmt *DeleteStatement) {
 	// Reset fields
 	stmt.Where = nil
 	stmt.TableName = ""
+	stmt.With = nil
+	stmt.Alias = ""
+	stmt.Using = nil
+	stmt.Returning = nil
 
 	// Return to pool
 	deleteStmtPool.Put(stmt)
@@ -551,6 +565,7 @@ func PutSelectStatement(stmt *SelectStatement) {
 	for i := range stmt.OrderBy {
 		stmt.OrderBy[i].Expression = nil
 	}
+	clear(stmt.OrderBy) // Ascending / NullsFirst of the previous query too
 	stmt.OrderBy = stmt.OrderBy[:0]
 
 	stmt.TableName = ""
@@ -559,6 +574,14 @@ func PutSelectStatement(stmt *SelectStatement) {
 	stmt.Offset = nil
 	stmt.Fetch = nil
 	stmt.For = nil
+	stmt.With = nil
+	stmt.Distinct = false
+	stmt.DistinctOnColumns = nil
+	stmt.From = nil
+	stmt.Joins = nil
+	stmt.GroupBy = nil
+	stmt.Having = nil
+	stmt.Windows = nil
 
 	// Return to pool
 	selectStmtPool.Put(stmt)
@@ -575,6 +598,7 @@ func PutIdentifier(ident *Identifier) {
 		return
 	}
 	ident.Name = ""
+	ident.Table = ""
 	identifierPool.Put(ident)
 }
 
@@ -593,6 +617,8 @@ func PutBinaryExpression(expr *BinaryExpression) {
 	expr.Left = nil
 	expr.Right = nil
 	expr.Operator = ""
+	expr.Not = false
+	expr.CustomOp = nil
 	binaryExprPool.Put(expr)
 }
 
@@ -730,6 +756,7 @@ func PutExpression(expr Expression) {
 		switch e := current.(type) {
 		case *Identifier:
 			e.Name = ""
+			e.Table = ""
 			identifierPool.Put(e)
 
 		case *BinaryExpression:
@@ -742,6 +769,8 @@ func PutExpression(expr Expression) {
 			e.Left = nil
 			e.Right = nil
 			e.Operator = ""
+			e.Not = false
+			e.CustomOp = nil
 			binaryExprPool.Put(e)
 
 		case *LiteralValue:
@@ -761,6 +790,8 @@ func PutExpression(expr Expression) {
 			e.Over = nil
 			e.Distinct = false
 			e.Filter = nil
+			e.OrderBy = nil
+			e.WithinGroup = nil
 			functionCallPool.Put(e)
 
 		case *CaseExpression:
@@ -779,6 +810,7 @@ func PutExpression(expr Expression) {
 				workQueue = append(workQueue, e.ElseClause)
 			}
 			e.Value = nil
+			clear(e.WhenClauses)
 			e.WhenClauses = e.WhenClauses[:0]
 			e.ElseClause = nil
 			caseExprPool.Put(e)
@@ -841,6 +873,7 @@ func PutExpression(expr Expression) {
 				}
 			}
 			e.Array = nil
+			clear(e.Indices)
 			e.Indices = e.Indices[:0]
 			arraySubscriptExprPool.Put(e)
 
@@ -990,6 +1023,8 @@ func PutFunctionCall(fc *FunctionCall) {
 	fc.Over = nil
 	fc.Distinct = false
 	fc.Filter = nil
+	fc.OrderBy = nil
+	fc.WithinGroup = nil
 	functionCallPool.Put(fc)
 }
 
@@ -1011,6 +1046,7 @@ func PutCaseExpression(ce *CaseExpression) {
 		PutExpression(ce.WhenClauses[i].Condition)
 		PutExpression(ce.WhenClauses[i].Result)
 	}
+	clear(ce.WhenClauses)
 	ce.WhenClauses = ce.WhenClauses[:0]
 	PutExpression(ce.ElseClause)
 	ce.ElseClause = nil
@@ -1184,6 +1220,7 @@ func PutArraySubscriptExpression(ase *ArraySubscriptExpression) {
 			PutExpression(ase.Indices[i])
 		}
 	}
+	clear(ase.Indices)
 	ase.Indices = ase.Indices[:0] // Clear slice but keep capacity
 	arraySubscriptExprPool.Put(ase)
 }
